@@ -657,6 +657,18 @@ func c20prelude() []*c20case {
 			{Kind: "msg-l2", TypeURL: sdk.MsgTypeURL(big1), Hex: hex.EncodeToString(bbz), Note: "deposit of 2^256-1 under limit " + lv},
 		}})
 	}
+	// an absent amount where an entry for the same (case-folded) key already exists
+	{
+		set5 := &types.MsgSetMaxBurnAmountPerMessage{From: sim.Acct(3), LocalToken: "uusdc", Amount: sim.Int(sim.Big("5"))}
+		sbz, _ := proto.Marshal(set5)
+		up := &types.MsgSetMaxBurnAmountPerMessage{From: sim.Acct(3), LocalToken: "UUSDC", Amount: sim.Int(sim.Big("5"))}
+		out = append(out, &c20case{Gen: gs(), Inputs: []c20input{
+			{Kind: "msg-l2", TypeURL: sdk.MsgTypeURL(set5), Hex: hex.EncodeToString(sbz), Note: "burn limit 5"},
+			{Kind: "msg-l2", TypeURL: sdk.MsgTypeURL(lim), Hex: drop(wire(lim), 3), Note: "absent amount over an existing limit"},
+			{Kind: "msg-l1", TypeURL: sdk.MsgTypeURL(lim), Hex: drop(wire(lim), 3), Note: "absent amount over an existing limit"},
+			{Kind: "msg-l2", TypeURL: sdk.MsgTypeURL(up), Hex: drop(wire(up), 3), Note: "absent amount, upper-case token, over an existing limit"},
+		}})
+	}
 	// a genesis whose threshold makes 65*threshold wrap around 2^32: a 4-byte attestation then matches the length
 	g := types.DefaultGenesis()
 	g.Owner, g.AttesterManager, g.Pauser, g.TokenController = sim.Acct(0), sim.Acct(1), sim.Acct(2), sim.Acct(3)
